@@ -1064,7 +1064,7 @@ fn cmd_run(cfg: &Cfg) -> i32 {
             "inputs_per_class": total.per_class_inputs, "reference_verdicts": total.verdicts,
             "max_o2o_diagnostics_in_one_input": total.max_errors_in_one_input, "max_impls_in_one_input": total.max_impls_in_one_input,
             "input_shape_probes": {"note": "how many of the reference observations' inputs have each shape (a probe stuck at 0 is a blind spot of the workload)", "hits": total.shape_probes},
-            "corpus": {"items": corpus.items.len(), "files": corpus.files, "from_o2o_tests": corpus.from_tests_dir, "from_unit_tests": corpus.from_unit_tests, "from_readme_and_doc_comments": corpus.from_docs, "source_dictionary_env_names": corpus.dict_env, "source_dictionary_argv": corpus.dict_argv},
+            "corpus": {"items": corpus.items.len(), "files": corpus.files, "from_o2o_tests": corpus.from_tests_dir, "from_unit_tests": corpus.from_unit_tests, "from_readme_and_doc_comments": corpus.from_docs, "source_dictionary_env_names": corpus.dict_env, "source_dictionary_argv": corpus.dict_argv, "source_dictionary_unknown_keywords": corpus.dict_keywords},
             "faults": {
                 "enabled_in_worlds": total.fault_enabled_worlds,
                 "fired_on_hosts": total.fault_fired_hosts,
